@@ -14,7 +14,7 @@
    The driver loop [gen_loop] is generic in the state and the sweep function: als_func (Model/AlsFunc.v) uses it too.
    The rank-adaptive path is [als_adaptive] (e=None, no validation data, no callback: max(1, nswp) sweeps).
    NOT modelled: allow_swap=True ("VERY experimental"), update_sol, lamb=None, use_stab, log, info['t'], info['r'],
-     negative (wrapping) indices; in the adaptive path the content of np.empty for an index pair without sample. *)
+     negative (wrapping) indices. *)
 From Coq Require Import List Arith Lia PeanoNat Bool.
 From TV Require Import Num.Ops Lin.Tab Lin.BigSum Lin.Solve TT.Chain.
 Import ListNotations.
@@ -174,14 +174,14 @@ Definition info_appr (stop : option stopr) (t : nat) (ecur evcur : T)
 
 Variable acc : nat -> list (core T) -> list (core T) -> T.   (* teneva.accuracy(Y, Yold) after sweep t *)
 Variable accv : nat -> list (core T) -> T.                   (* accuracy_on_data(Y, I_vld, y_vld); t = 0 before the loop *)
-Variable cb : option (nat -> list (core T) -> bool).         (* `cb(Y, info, opts) is True` after sweep t *)
+Variable cb : option (nat -> list (core T) -> bool).         (* truthiness of cb(Y, info, opts) after sweep t *)
 
 (* what `info` holds at return, besides the cores *)
 Record info := mk_info { i_nswp : nat; i_stop : stopr; i_e : T; i_evld : T }.
 
 (*  while True:
         Yold = copy(Y); <sweep>; info['nswp'] += 1; info['e'] = accuracy(Y, Yold); info['e_vld'] = ...
-        if cb: if cb(Y, info, opts) is True: info['stop'] = info['stop'] or 'cb'
+        if cb: if cb(Y, info, opts): info['stop'] = info['stop'] or 'cb'     (any true value, d12f1ba)
         if _info_appr(...): return Y
     The driver loop is shared by als (state = cores + interface matrices, [sweepf] = sweep) and als_func. *)
 Section Loop.
@@ -228,8 +228,8 @@ Definition als (S : list sample) (Y0 : list (core T)) (nswp : option nat) (e evl
                  Q[:, k1, k2, :] = _lstsq(A, b, lamb, w[idx]).reshape(r1, r2)
      Qs = Q.reshape(r1*n1, n2*r2);  V1, V2 = matrix_skeleton(Qs, e, r, rel=True, give_to=..)
      return V1.reshape(r1, n1, -1), V2.reshape(-1, n2, r2)
-   Q is np.empty: an index pair without sample leaves UNSPECIFIED memory in Q; the model puts 0 there (the
-   correspondence covers every neighbouring pair).  [skel c Qs rmax] is the c-th call of matrix_skeleton, returning
+   Q = np.zeros(...) (since /repo c1e64d5): an index pair without sample leaves 0 in Q, as in the model.
+   [skel c Qs rmax] is the c-th call of matrix_skeleton, returning
    V1 as a core of shape (1, r1*n1, rank) and V2 as a core of shape (1, rank, n2*r2);
    [orth] = teneva.orthogonalize(Y, 0). *)
 Variable orth : list (core T) -> list (core T).
